@@ -50,6 +50,10 @@ Proof. vm_compute; reflexivity. Qed.
 
 Definition model_strcase_calls : list (string * string) :=
   [("componentName", "ToCamel"); ("componentName", "ToCamel"); ("fullName", "ToCamel"); ("run", "ToSnake");
+   (* checkReservedNames (fix a5547b9): the entity's own response property ToSnake(ToLowerCamel(name)), the proto
+      name ToSnake of a path key, the option ToSnake(ToLowerCamel(event)), the proto name ToSnake of a summary field *)
+   ("checkReservedNames", "ToSnake"); ("checkReservedNames", "ToLowerCamel"); ("checkReservedNames", "ToSnake");
+   ("checkReservedNames", "ToSnake"); ("checkReservedNames", "ToLowerCamel"); ("checkReservedNames", "ToSnake");
    ("acceptStatus", "ToScreamingSnake"); ("findStatus", "ToScreamingSnake");
    ("acceptEventOneof", "ToLowerCamel"); ("acceptCommands", "ToCamel");
    ("acceptSummaryTopics", "ToCamel"); ("acceptSummaryTopics", "ToCamel"); ("acceptSummaryTopics", "ToCamel");
@@ -399,9 +403,13 @@ Definition strcase_calls_from_model_stmt : Prop :=
         /\ map mt_name (sv_methods s) = map (fun f => sp1 f (apply_fn "ToCamel" (snake_name probe2))) ["%sGet"; "%sList"; "%sEvents"]%string)
   /\ map f_json (firstn 1 (msg_fields2 (sp1 "%sGet" (apply_fn "ToCamel" (snake_name probe2)) ++ bs "Response")))
      = [apply_fn "ToLowerCamel" (snake_name probe2)]
+  (* checkReservedNames: proto names ToSnake(..) and the two ToLowerCamel steps of the entity's own
+     response property / an event's option *)
+  /\ same_strings (fns_of "checkReservedNames") ["ToSnake"; "ToLowerCamel"] = true
+  /\ own_response_name probe2 = apply_fn "ToSnake" (apply_fn "ToLowerCamel" (snake_name probe2))
   (* and no other function of entity.go calls strcase *)
   /\ same_strings (dedup (map fst EntityGen.strcase_calls))
-       ["componentName"; "fullName"; "run"; "acceptStatus"; "findStatus"; "acceptEventOneof"; "acceptCommands";
+       ["componentName"; "fullName"; "run"; "checkReservedNames"; "acceptStatus"; "findStatus"; "acceptEventOneof"; "acceptCommands";
         "acceptSummaryTopics"; "acceptPublishTopic"; "acceptQuery"] = true.
 Lemma strcase_calls_from_model : strcase_calls_from_model_stmt.
 Proof.
